@@ -117,11 +117,15 @@ def identifierHits (lower : Str → Str) (tbl : List PathInfo) (wantedType name 
     fun i => searchFilter lower i.names wantedType name complete false
 
 /-- `Project._search_func(string, complete, all_scopes)` for a string without dots, steps 1 and 2
-(step 3, modules on the rest of `sys.path`, is outside the project directory and outside the model) -/
-def projectSearch (lower : Str → Str) (tbl : List PathInfo) (parseLimit openLimit : Nat)
+and step 3 restricted to the project directory itself: `sysNames` = the module names
+`iter_module_names` lists for the project root, which is on `sys.path` (the rest of `sys.path`
+is outside the project directory and outside the model).  Step 3 does not consult the walk:
+ignore rules do not apply to it. -/
+def projectSearch (lower : Str → Str) (tbl : List PathInfo) (sysNames : List Nm) (parseLimit openLimit : Nat)
     (wantedType name : Str) (complete : Bool) (evs : List Ev) : List Nm :=
   let files := (evs.filter (·.isFile)).map (·.path)
   skipDuplicates (moduleHits lower tbl wantedType name complete evs ++
-    identifierHits lower tbl wantedType name complete parseLimit openLimit files)
+    identifierHits lower tbl wantedType name complete parseLimit openLimit files ++
+    searchFilter lower sysNames wantedType name complete false)
 
 end JediModel.Search
